@@ -88,8 +88,9 @@ class Wrapper(InProc, Contract):
     fn = 'cache:function.wrapper'
 
     def __init__(self, scenario):
-        self.scenario = scenario  # disabled | hit | hit-old | miss-eof | miss-unpickling | miss-index | miss-old-fail
+        self.scenario = scenario  # disabled | hit | hit-old | miss-eof | miss-unpickling | miss-index | miss-old-fail [+func-raises]
         self.label = scenario
+        self.expect_return = '+func-raises' not in scenario
 
     def setup(self, cx):
         S = State(events=[], func_calls=[], dumped=[], cache_state=[])
@@ -97,6 +98,8 @@ class Wrapper(InProc, Contract):
         result_value = SOpaque('func-result')
         S.stored_value, S.result_value = stored_value, result_value
         sc0 = INITIAL.get(self.scenario, self.scenario)
+        S.func_raises = sc0.endswith('+func-raises')
+        sc0 = sc0.replace('+func-raises', '')
         S.content = {'disabled': [], 'hit': [('record', (stored_value, stored_log))], 'hit-old': [('record', (stored_log, False, stored_value))],
                      'miss-old-fail': [('record', (stored_log, True, stored_value))], 'miss-eof': [], 'miss-unpickling': [('garbage', 'UnpicklingError')],
                      'miss-index': [('garbage', 'IndexError')]}[sc0]
@@ -104,6 +107,8 @@ class Wrapper(InProc, Contract):
         def func(ctx, *a, **k):
             S.func_calls.append((a, k, list(S.cache_state)))
             S.events.append('func')
+            if S.func_raises:
+                raise PyRaise('RuntimeError', note='the wrapped function raises')
             return result_value
 
         class Pickle:
@@ -169,6 +174,10 @@ class Wrapper(InProc, Contract):
                         S.file = FileV(S)
                         return S.file
                     return open_
+                if name in ('unlink', 'rename', 'replace', 'write_bytes', 'write_text', 'rmdir', 'chmod', 'symlink_to', 'hardlink_to'):
+                    # any other effect on the entry's path is recorded; the contract's frame clause forbids them (the lock is tied to the
+                    # file the path names: removing or replacing the entry while processes may wait on it breaks their mutual exclusion)
+                    return lambda ctx, *a, **k: S.events.append('fs:' + name)
                 raise Unsupported('path.' + name)
 
         class Caching:
@@ -213,12 +222,25 @@ class Wrapper(InProc, Contract):
     def replay(self, ob):
         if not self.replay_once(ob):
             return None
+        if '+func-raises' in self.scenario or 'entry-path' in (ob.clause or ''):
+            return _native('run_function_raises(%r)' % (ob.clause,))
         return _native('run_function_twice(%r, %r)' % (self.scenario if self.scenario in INITIAL else None, ob.clause))
+
+    def raises(self, cx, S, e):
+        # an exception of the wrapped function propagates unchanged: nothing is stored, the entry's path is left alone (frame), caching is
+        # re-enabled and the file is closed (lock released)
+        if getattr(S, 'func_raises', False) and e.exc.split(':')[0] == 'RuntimeError':
+            ev = S.events
+            return z3.BoolVal(len(S.func_calls) == 1 and not S.dumped and not any(x.startswith('fs:') for x in ev) and 'close' in ev and not S.cache_state
+                              and S.func_calls[0][2] == ['disabled'])
+        return False
 
     def ensures(self, cx, S, result):
         sc = self.scenario
         ev = S.events
         B = z3.BoolVal
+        if getattr(S, 'func_raises', False):
+            return [('exception-of-func-propagates', B(False))]
         if sc == 'disabled':
             return [('calls-func-directly', B(result is S.result_value and ev == ['func'] and len(S.func_calls) == 1 and S.func_calls[0][0] == S.args and S.func_calls[0][1] == S.kwargs))]
         out = [('locked-before-load', B('lock' in ev and ev.index('lock') < next(i for i, e in enumerate(ev) if e.startswith('load')))),
@@ -239,6 +261,7 @@ class Wrapper(InProc, Contract):
         key_ok = isinstance(k, KeyHex) and k.sha.init == ('FUNCKEY',) and k.sha.updates[:len(want_args)] == want_args and len(k.sha.updates) == len(want_args) + 1 \
             and isinstance(k.sha.updates[-1], SortedBlocks) and sorted(k.sha.updates[-1].names) == sorted(S.kwargs) and all(v is S.kwargs[n] for n, v in zip(k.sha.updates[-1].names, k.sha.updates[-1].values))
         out.append(('key-covers-function-and-all-arguments', B(bool(key_ok))))
+        out.append(('entry-path-neither-removed-nor-replaced', B(not any(x.startswith('fs:') for x in ev))))
         return out
 
 
@@ -771,7 +794,8 @@ def _context_contracts():
 
 
 def contracts():
-    return [Wrapper(s) for s in ('disabled', 'hit', 'hit-old', 'miss-eof', 'miss-unpickling', 'miss-index', 'miss-old-fail')] + [KeyOfFunction()] \
+    return [Wrapper(s) for s in ('disabled', 'hit', 'hit-old', 'miss-eof', 'miss-unpickling', 'miss-index', 'miss-old-fail',
+                                 'miss-eof+func-raises', 'miss-unpickling+func-raises', 'miss-old-fail+func-raises')] + [KeyOfFunction()] \
         + [WrapperTwice(s) for s in ('over-longer-old-format-entry', 'over-longer-garbage', 'into-empty-file')] \
         + [RecursionIter('enabled'), RecursionIter('disabled'), ResumeIndex()] + _context_contracts()
 
